@@ -16,7 +16,11 @@ Record tdef := {
   t_class_dur : list (string * dval);     (* TIMERS defaults *)
   t_inst_dur : list (string * dval);      (* t_STATE= of the instance (None = not given) *)
   t_cond : list (string * tcond);        (* cond_EVENT *)
-  t_enter_goto : list (string * string) }.  (* enter_STATE action requesting Goto(state') *)
+  t_enter_goto : list (string * string);    (* enter_STATE action requesting Goto(state') *)
+  t_exit_bad : list string }.               (* states with an on_exit_STATE event whose destination does
+                                               not know the event type: leaving them fails with
+                                               EdzedUnknownEvent (not fatal), BEFORE the timer is
+                                               stopped - the FSM stays in the state, timer untouched *)
 
 (* effective duration: the event's 'duration' item > instance t_STATE > class default *)
 Definition eff_duration (d : tdef) (state : string) (ev_dur : dval) : dval :=
@@ -131,6 +135,13 @@ Fixpoint enter_chain (n : nat) (d : tdef) (s : tstate) (x : string) (ev_dur : dv
       end
   end.
 
+(* the exit actions / on_exit events of the current state run only for an initialised FSM *)
+Definition leaving_fails (d : tdef) (s : tstate) : bool :=
+  match ts_entries s, ts_state s with
+  | _ :: _, Some cur => str_mem cur (t_exit_bad d)
+  | _, _ => false
+  end.
+
 (* an event (external, or the timed event delivered by a fired handle) *)
 Definition do_event (d : tdef) (s : tstate) (e : etype) (ev_dur : dval) : tstate * res bool :=
   match target d s e with
@@ -138,6 +149,7 @@ Definition do_event (d : tdef) (s : tstate) (e : etype) (ev_dur : dval) : tstate
   | Err k => (fail s, Err k)
   | Ok None => (s, Ok false)
   | Ok (Some nxt) =>
+      if leaving_fails d s then (s, Err EUnknownEvent) else
       match enter_chain (chain_limit (t_fsm d)) d (stop_timer s) nxt ev_dur with
       | (s1, Some k) => (fail s1, Err k)
       | (s1, None) => (log_entry s1, Ok true)
